@@ -122,9 +122,11 @@ def well_posed(res, key, X, out, cc):
     return ok
 
 
-def transforms(d, thorough):
+def transforms(d, thorough, few=False):
     S = [1e-6, 1e-3, 1.0, 1e3, 1e6]
     out = []
+    if few:  # large data sets: a common rescaling with a far translation, one unequal rescaling, one permutation
+        return [(np.full(d, 1e-3), 1e3, None), (np.full(d, 1e3), -1e6, None), (np.array([1e-3] + [1e2] * (d - 1)), 1.0, None), (np.ones(d), 0.0, list(range(1, d)) + [0])]
     if d <= 2:
         for s in itertools.product(S, repeat=d):
             for t in (0.0, 1e3):
@@ -166,7 +168,7 @@ def run_data(case):
     mu0, S0, nu0 = np.asarray(base[0]), np.asarray(base[1]).reshape(d, d), base[2]
     res.outcome((d, n, law, rho, "id"), nontrivial=False)
     sd = np.sqrt(np.diag(S0))
-    for k, (s, t, perm) in enumerate(transforms(d, case.get("thorough"))):
+    for k, (s, t, perm) in enumerate(transforms(d, case.get("thorough"), few=bool(case.get("few")))):
         if case.get("tr") is not None and case["tr"] != k:
             continue
         Y = X * s + t
@@ -440,8 +442,10 @@ def plan(ctx):
                     if not th and d >= 5 and rho == -0.99:
                         continue
                     cases.append({"kind": "data", "d": d, "n": n, "law": law, "rho": rho, "thorough": th})
+    cases += [{"kind": "data", "d": d_, "n": n_, "law": law_, "rho": 0.0, "thorough": th, "few": True} for d_, n_, law_ in ((3, 80000, "t5"), (2, 70001, "t2"), (5, 66000, "gauss"))]  # scale: more rows than any block size
     ctx.explore("equivariance", cases, chunksize=2)
     rec = [{"kind": "recovery", "d": d, "nu": nu, "rho": rho} for d in (1, 2, 3, 5, 8) for nu in (1, 2, 5, 30) for rho in ((0.0, 0.9) if d > 1 else (0.0,))]
+    rec += [{"kind": "recovery", "d": 2, "nu": nu, "rho": rho} for nu in (2, 5) for rho in (1 - 1e-6, 1 - 1e-9, 1 - 5e-13)]  # nearly collinear clouds (thin direction 1e-3 .. 1e-6 of the long one)
     ctx.explore("recovery", rec)
     fb = [{"kind": "fallback", "d": d, "n": n, "seed": ctx.seed} for d in (1, 2, 3) for n in (40, 200)]
     agg = ctx.explore("dof-fallback", fb)
